@@ -154,3 +154,124 @@ func c08RepayWithdrawLine(f *c08Fix, ctx sdk.Context, un int, us string, b lendt
 func c08FundAmount(cr *rng) *big.Int {
 	return c08Pick(cr, []*big.Int{c08bi(1), c08bi(int64(1000 + cr.intn(100000000))), c08bi(int64(1000000 + cr.intn(2000000000))), c08bi(3000000000000)})
 }
+
+// C08 regression corpus (scripted), the close of a handed-over position:
+//   case 0  finding C08-F3 (a): a same-pool position accrues interest for 30 days, is handed over and closed.  The
+//           auction recovers principal + ordinary penalty; the close forwards the reserve share of the interest and
+//           raises TotalInterestAccumulated (mints cTokens) for the rest although no interest was recovered.
+//   case 1  finding C08-F3 (b): an e-mode pair whose e-mode penalty (0.08) is above the ordinary one (0.05), closed at
+//           once (no interest): the auction collected 5 %, the close forwards 8 % of the principal to the reserve.
+//   case 2  finding C10-F7 seen from the lend books: a cross-pool position that pledged its lend position's whole
+//           AmountIn; the hand-over deletes the lend record, every closing bid panics, the position stays flagged.
+func TestC08Close(t *testing.T) {
+	tr := newTracer(t, "c08c.trace")
+	defer tr.close()
+	f, base := c08Setup(t, tr)
+	a := f.a
+	k := a.LendKeeper
+	A := f.assets
+	p1, p2 := f.pools[0], f.pools[1]
+	pairOf := func(in, out uint64, inter bool) uint64 {
+		for _, p := range f.pairs {
+			if p.AssetIn == in && p.AssetOut == out && p.IsInterPool == inter {
+				return p.Id
+			}
+		}
+		t.Fatalf("no pair %d -> %d", in, out)
+		return 0
+	}
+	u1, u2, u3 := f.users[0].String(), f.users[1].String(), f.users[2].String()
+	c := func(asset uint64, amt int64) sdk.Coin { return sdk.NewCoin(f.idDenom[asset], sdk.NewInt(amt)) }
+	var ctx sdk.Context
+	run := func(line string, msg sdk.Msg) {
+		class, xerr, _ := execMsg(a, ctx, msg)
+		if xerr != nil {
+			tr.p("# %s", xerr.Error())
+		}
+		tr.p("op 0 %s %s", line, class)
+		c08Project(f, ctx, tr)
+	}
+	report := func(what string, pool uint64, asset uint64) {
+		pl, _ := k.GetPool(ctx, pool)
+		st, _ := k.GetAssetStatsByPoolIDAndAssetID(ctx, pool, asset)
+		tr.p("# %s: pool balance %s reserve balance %s total_lend %s total_borrowed %s total_interest_accumulated %s ctoken supply %s", what,
+			bal(a, ctx, modAddr(pl.ModuleName), f.idDenom[asset]), bal(a, ctx, modAddr(lendtypes.ModuleName), f.idDenom[asset]),
+			st.TotalLend, st.TotalBorrowed, st.TotalInterestAccumulated, supply(a, ctx, f.idDenom[f.cassets[asset-f.assets[0]]]))
+	}
+	crash := func(asset uint64, p uint64) {
+		setPrice(a, ctx, asset, p, true)
+		tr.p("op 0 setprice %d %d ok", asset, p)
+		c08Project(f, ctx, tr)
+	}
+	handover := func(id uint64, who string) {
+		d, dint := c08LiqEnv(f, ctx, id)
+		run(fmt.Sprintf("handover %d %d %s", id, d, dint), &liqV2types.MsgLiquidateInternalKeeperRequest{From: who, LiqType: 1, Id: id})
+	}
+	bid := func(id uint64) {
+		line := c08Bid(f, ctx, tr, id, 0, 50, true)
+		tr.p("op 0 %s", line)
+		c08Project(f, ctx, tr)
+	}
+
+	// ---- case 0: interest accrued before the hand-over
+	ctx, _ = base.CacheContext()
+	now := baseTime
+	ctx = ctx.WithBlockTime(now).WithBlockHeight(3)
+	tr.p("case 0 9")
+	c08Project(f, ctx, tr)
+	run(fmt.Sprintf("lend 2 %d %d 1000000000 %d %d 0", A[2], A[2], p1, f.app), lendtypes.NewMsgLend(u2, A[2], c(A[2], 1000000000), p1, f.app))
+	run(fmt.Sprintf("lend 1 %d %d 2000000000 %d %d 0", A[1], A[1], p1, f.app), lendtypes.NewMsgLend(u1, A[1], c(A[1], 2000000000), p1, f.app))
+	pid := pairOf(A[1], A[2], false)
+	run(fmt.Sprintf("borrow 1 2 %d false %d 1000000000 %d 900000 0 0 0 0 0 0", pid, f.cassets[1], A[2]),
+		lendtypes.NewMsgBorrow(u1, 2, pid, false, c(f.cassets[1], 1000000000), c(A[2], 900000)))
+	now = now.Add(30 * 24 * 3600 * 1e9)
+	ctx = ctx.WithBlockTime(now).WithBlockHeight(4)
+	run(fmt.Sprintf("calc 1 1 %s 1 %s", c08BI(f, ctx, 1), c08Ipb(f, ctx, 2)), lendtypes.NewMsgCalculateInterestAndRewards(u1))
+	crash(A[1], 700000)
+	handover(1, u2)
+	report("before the close", p1, A[2])
+	bid(1)
+	report("after the close", p1, A[2])
+	// nothing of asset 3 is lent out any more, yet its only lender cannot take its 1 000 000 000 coins back
+	run(fmt.Sprintf("closelend 2 1 %s", c08Ipb(f, ctx, 1)), lendtypes.NewMsgCloseLend(u2, 1))
+
+	// ---- case 1: e-mode pair, no interest
+	ctx, _ = base.CacheContext()
+	ctx = ctx.WithBlockTime(baseTime).WithBlockHeight(3)
+	tr.p("case 1 6")
+	c08Project(f, ctx, tr)
+	run(fmt.Sprintf("lend 2 %d %d 1000000000 %d %d 0", A[2], A[2], p1, f.app), lendtypes.NewMsgLend(u2, A[2], c(A[2], 1000000000), p1, f.app))
+	run(fmt.Sprintf("lend 3 %d %d 1000000000 %d %d 0", A[0], A[0], p1, f.app), lendtypes.NewMsgLend(u3, A[0], c(A[0], 1000000000), p1, f.app))
+	var epid uint64
+	for _, p := range f.pairs {
+		if p.IsEModeEnabled {
+			epid = p.Id
+		}
+	}
+	run(fmt.Sprintf("borrow 3 2 %d false %d 500000000 %d 1000000 0 0 0 0 0 0", epid, f.cassets[0], A[2]),
+		lendtypes.NewMsgBorrow(u3, 2, epid, false, c(f.cassets[0], 500000000), c(A[2], 1000000)))
+	crash(A[0], 1000000)
+	handover(1, u2)
+	report("before the close", p1, A[2])
+	bid(1)
+	report("after the close", p1, A[2])
+
+	// ---- case 2: cross-pool position on a lend position that pledged everything
+	ctx, _ = base.CacheContext()
+	ctx = ctx.WithBlockTime(baseTime).WithBlockHeight(3)
+	tr.p("case 2 8")
+	c08Project(f, ctx, tr)
+	run(fmt.Sprintf("lend 2 %d %d 2000000000 %d %d 0", A[3], A[3], p2, f.app), lendtypes.NewMsgLend(u2, A[3], c(A[3], 2000000000), p2, f.app))
+	run(fmt.Sprintf("lend 2 %d %d 1000000000 %d %d 0", A[2], A[2], p1, f.app), lendtypes.NewMsgLend(u2, A[2], c(A[2], 1000000000), p1, f.app))
+	run(fmt.Sprintf("lend 1 %d %d 1000000000 %d %d 0", A[1], A[1], p1, f.app), lendtypes.NewMsgLend(u1, A[1], c(A[1], 1000000000), p1, f.app))
+	xpid := pairOf(A[1], A[3], true)
+	run(fmt.Sprintf("borrow 1 3 %d false %d 1000000000 %d 1000000000 0 0 0 0 0 0", xpid, f.cassets[1], A[3]),
+		lendtypes.NewMsgBorrow(u1, 3, xpid, false, c(f.cassets[1], 1000000000), c(A[3], 1000000000)))
+	crash(A[1], 600000)
+	handover(1, u2)
+	bid(1)
+	bid(1)
+	b, found := k.GetBorrow(ctx, 1)
+	_, lfound := k.GetLend(ctx, 3)
+	tr.p("# after two closing bids: borrow 1 found %v liquidated %v bridged %s; lend 3 found %v", found, b.IsLiquidated, b.BridgedAssetAmount, lfound)
+}
